@@ -175,7 +175,13 @@ class PKESessionKeyV3(PKESessionKey):
     @pkalg.register(int)
     @pkalg.register(PubKeyAlgorithm)
     def pkalg_int(self, val):
-        self._pkalg = PubKeyAlgorithm(val)
+        try:
+            self._pkalg = PubKeyAlgorithm(val)
+
+        except ValueError:
+            # an algorithm id that is not known here (a private or experimental one, for instance): this session key
+            # is for some other recipient, and it is kept as it was received
+            self._pkalg = val
 
         _c = {PubKeyAlgorithm.RSAEncryptOrSign: RSACipherText,
               PubKeyAlgorithm.RSAEncrypt: RSACipherText,
